@@ -57,6 +57,7 @@ def declare(L):
         "Hstartwrite": (i32, [i32, u16, u16, i32]),
         "Hstartaccess": (i32, [i32, u16, u16, c_uint32]),
         "Hendaccess": (c_int, [i32]),
+        "Hnextread": (c_int, [i32, u16, u16, c_int]),
         "Hread": (i32, [i32, i32, c_void_p]),
         "Hwrite": (i32, [i32, i32, c_void_p]),
         "Hseek": (c_int, [i32, i32, c_int]),
